@@ -100,6 +100,10 @@ def gen_case(rng):
     if pre == '' and post == '':
         post_w = post = '.'
     base.append((S('s'), S(pre_w + '${t}' + post_w)))
+    # the embedding string is also reached through further references (its text must not depend on
+    # how deep in a reference chain it is produced)
+    base.append((S('a1'), S('${s}')))
+    base.append((S('a2'), S(rng.choice(['via ${s}', '${a1}', '<${a1}>']))))
     rng.shuffle(base)
     return [('m', base)] + layers, pre, post, shape
 
